@@ -52,7 +52,10 @@ impl SingleExecMatcher {
 }
 
 impl Matcher for SingleExecMatcher {
-    fn matches(&self, file_info: &WalkEntry, _: &mut MatcherIO) -> bool {
+    fn matches(&self, file_info: &WalkEntry, matcher_io: &mut MatcherIO) -> bool {
+        // What earlier actions have written must reach the output before the command
+        // writes to it (-printf without a trailing newline stays in the buffer otherwise).
+        let _ = matcher_io.deps.get_output().borrow_mut().flush();
         let mut command = Command::new(&self.executable);
         let path_to_file = if self.exec_in_parent_dir {
             // The command runs in the parent directory (`Path::parent`), so the entry is
@@ -136,6 +139,8 @@ impl MultiExecMatcher {
     }
 
     fn run_command(&self, command: &mut argmax::Command, matcher_io: &mut MatcherIO) {
+        // see SingleExecMatcher::matches
+        let _ = matcher_io.deps.get_output().borrow_mut().flush();
         match command.status() {
             Ok(status) => {
                 if !status.success() {
